@@ -117,9 +117,13 @@ def solve_one(i):
                     break
                 continue
             if phase == "full" and budget <= first: break
-            sol = z3.Solver(); sol.set("timeout", int(tmo))
-            sol.add(*vc_exprs(eng, ob))
-            r = sol.check()
+            exprs = vc_exprs(eng, ob)
+            seeds = (0,) if phase == "quick" else (1, 2, 3)
+            for seed in seeds:       # z3's instantiation heuristics are seed-sensitive on recursive definitions: retry with other seeds
+                sol = z3.Solver(); sol.set("timeout", int(tmo if phase == "quick" else max(1000, tmo // len(seeds)))); sol.set("random_seed", seed)
+                sol.add(*exprs)
+                r = sol.check()
+                if r != z3.unknown: break
             if r == z3.unsat:
                 res.update(result="proved"); break
             if r == z3.sat:
@@ -147,7 +151,30 @@ def _refute(eng, ob, opts):
         r = sol.check()
         if r == z3.sat: return _witness(eng, ob, sol.model()), K
         if r == z3.unsat and not lens and extra_bound is None: return None
+    # relaxed candidate search: no length bound, hypotheses that mention recursive / opaque spec functions dropped.
+    # A model of the relaxed VC is only a *candidate*: it counts only if the replay on the real code confirms it
+    # (the replay builds its pre-state through the public API, which re-establishes the dropped state invariants).
+    if ob.meta.get("replay") and not ob.meta.get("no_relaxed"):
+        hyps = [h for h in exprs[:-1] if not _mentions_spec_fn(h)]
+        sol = z3.Solver(); sol.set("timeout", int(opts.get("refute_ms", 4000)))
+        sol.add(*hyps); sol.add(exprs[-1])
+        if sol.check() == z3.sat:
+            w = _witness(eng, ob, sol.model()); w["relaxed_candidate"] = True
+            return w, "unbounded (relaxed candidate)"
     return None
+
+def _mentions_spec_fn(e):
+    seen = set(); stack = [e]
+    while stack:
+        x = stack.pop()
+        if x.get_id() in seen: continue
+        seen.add(x.get_id())
+        if z3.is_quantifier(x): stack.append(x.body()); continue
+        if z3.is_app(x):
+            k = x.decl().kind()
+            if k == z3.Z3_OP_RECURSIVE or (k == z3.Z3_OP_UNINTERPRETED and x.num_args() > 0): return True
+            stack.extend(x.children())
+    return False
 
 def discharge(eng, obls, budget_ms=None, workers=None, refute=True, first_ms=2500, refute_ms=4000, refute_K=(2, 5, 9), verbose=False):
     """fills result/secs/backend/model(witness)/detail of every obligation; forked pool (z3 objects are inherited, results are plain dicts)"""
